@@ -24,6 +24,7 @@ mod exporter;
 mod c20;
 mod c19;
 mod c01;
+mod c02;
 
 use engine::Ctx;
 
@@ -120,6 +121,8 @@ fn main() {
         ("C19", Some(p)) => c19::replay(&ctx, p),
         ("C01", None) => c01::run(&ctx),
         ("C01", Some(p)) => c01::replay(&ctx, p),
+        ("C02", None) => c02::run(&ctx),
+        ("C02", Some(p)) => c02::replay(&ctx, p),
         ("C16", None) => c16::run(&ctx),
         ("C16", Some(p)) => c16::replay(&ctx, p),
         _ => {
